@@ -945,9 +945,11 @@ class PDFDocument:
                         self._parsing_objs.add(objid)
                         try:
                             stream = stream_value(self.getobj(strmid))
+                            # (decoding the object stream may need objects
+                            # too, e.g. an indirect /Filter)
+                            obj = self._getobj_objstm(stream, index, objid)
                         finally:
                             self._parsing_objs.discard(objid)
-                        obj = self._getobj_objstm(stream, index, objid)
                     else:
                         if objid in self._parsing_objs:
                             # e.g. a stream whose /Length refers to the stream
